@@ -1,3 +1,4 @@
+\* generated by the builder of C02/C08; see MCSearchers.tla for the families
 SPECIFICATION Spec
 CONSTANTS
   SegSizes <- Segs22
@@ -7,10 +8,7 @@ CONSTANTS
   HeapTakeover = 10
   MaxCalls = 3
   NTerms = 3
-  Queries <- QConj
+  Queries <- QReplay
   FirstAdvanceOK <- FirstAdvNoQ2
-VIEW View
 INVARIANT ResultOK
-INVARIANT NoPanic
-INVARIANT EnumIsHits
 CHECK_DEADLOCK FALSE
